@@ -608,8 +608,9 @@ func tagPrograms() []*Program {
 				{"st", E("$.steps.a.outputs")}, {"cr", E("$.steps.a.crashed")}}}, "plain", E("$.steps.a.outputs"), "b", E(sv("b")))}}},
 		{Name: "oneofinput", Steps: []Step{
 			{ID: "a", Input: O("v", I(1)), WaitFor: OneOf{Disc: "kind", Opts: []Field{{"in", E("$.input")}, {"b", E("$.steps.b.outputs.success")}}}},
-			pstep("b", O("v", E("$.input.n")))},
-			Outputs: []Output{{"success", O("r", E(sv("a")), "q", E(sv("b")), "i", E("$.input.n"))}}},
+			pstep("b", O("v", E("$.input.n"))),
+			{ID: "c", Input: O("v", E(sv("a"))), WaitFor: E("$.input")}},
+			Outputs: []Output{{"success", O("r", E(sv("a")), "q", E(sv("b")), "i", E("$.input.n"), "c", E(sv("c")))}}},
 		// the enable condition of a comes from another step; consumers wait on a's disabled output
 		{Name: "enabledep", Steps: []Step{
 			pstep("p", O("v", E("$.input.n"))),
